@@ -186,3 +186,10 @@ Fixpoint iterate_encrypt (n : nat) (c : Sm4Cipher) (buf : list N) : outcome (lis
   | O => Ok buf
   | S n' => do '(c', buf') <- Encrypt c buf buf; iterate_encrypt n' c' buf'
   end.
+
+(* what a caller of sm4.NewCipher(key) gets from Encrypt / Decrypt into a fresh 16-byte dst, as a total function
+   (the empty string stands for "NewCipher failed or the call panicked") *)
+Definition go_encrypt (key blk : list N) : list N :=
+  match (do c <- NewCipher key; Encrypt c zero_r blk) with Ok (_, out) => out | _ => [] end.
+Definition go_decrypt (key blk : list N) : list N :=
+  match (do c <- NewCipher key; Decrypt c zero_r blk) with Ok (_, out) => out | _ => [] end.
